@@ -54,12 +54,13 @@ type Monitors struct {
 	committer map[uint64]int
 	per       map[int]*nodeMon
 	dupIDs    map[int]bool
+	cur       map[int]Pre // state of each node at the start of the event being processed
 	// non-triviality facts, read by the property wrappers
 	Facts map[string]int
 }
 
 func newMonitors(w *World) *Monitors {
-	m := &Monitors{w: w, focus: w.Cfg.Focus, committed: map[uint64]*fakes.Block{}, committer: map[uint64]int{}, per: map[int]*nodeMon{}, dupIDs: map[int]bool{}, Facts: map[string]int{}}
+	m := &Monitors{w: w, focus: w.Cfg.Focus, committed: map[uint64]*fakes.Block{}, committer: map[uint64]int{}, per: map[int]*nodeMon{}, dupIDs: map[int]bool{}, cur: map[int]Pre{}, Facts: map[string]int{}}
 	for i, n := range w.Nodes {
 		if n != nil {
 			m.per[i] = &nodeMon{proposals: map[hv]string{}, prepares: map[hv]string{}, commits: map[hv]string{}, lastVC: map[uint64]int64{},
@@ -82,6 +83,12 @@ func (m *Monitors) fail(prop, kind, format string, a ...interface{}) {
 }
 
 func (m *Monitors) pre(n *Node) Pre {
+	p := m.pre0(n)
+	m.cur[n.Idx] = p
+	return p
+}
+
+func (m *Monitors) pre0(n *Node) Pre {
 	return Pre{H: n.H(), V: n.V(), StoreLen: len(n.Sto.Log), SentLen: len(n.Sent), CommitsLen: len(n.Commits), ValLen: len(n.BU.Validates), PropLen: len(n.BU.Proposals), RoundsLen: len(n.Rounds)}
 }
 
